@@ -558,6 +558,11 @@ func (lf *logFile) open(path string, flags int, fsize int64) error {
 			return err
 		}
 		lf.size.Store(vlogHeaderSize)
+		// Make the directory entry of the new log file durable: entries written to it are
+		// acknowledged after an msync of its contents only, which does not cover the name.
+		if err := syncDir(filepath.Dir(path)); err != nil {
+			return err
+		}
 
 	} else if ferr != nil {
 		return y.Wrapf(ferr, "while opening file: %s", path)
